@@ -183,7 +183,7 @@ Proof.
     assert (dot y q == bil Hr y x1) as Ey by (apply IH; assumption).
     rewrite Ez, Ey.
     unfold x1. rewrite !(bil_vsub_r n Hr) by assumption. rewrite !(bil_vscale_r n Hr) by assumption.
-    rewrite (bil_update n Hr y s d HL HR Ly Ls z x).
+    rewrite (bil_update n Hr y s d HL HR Ls z x).
     rewrite !Qred_correct.
     assert (dot y (mv Hr y) == bil Hr y y) as E1 by reflexivity.
     assert (dot z (mv Hr y) == bil Hr z y) as E2 by reflexivity.
